@@ -32,7 +32,6 @@ Definition verdict (c : case) : Z :=
     let m := import_gff call_table strat [] spec feats empty_st in
     match m with
     | Err EOther => V_OUT                       (* an id with a line break in it: outside the domain *)
-    | Err EIntegrity => if match impl with Err EIntegrity => true | _ => false end then V_KNOWN 9 else V_BAD
     | _ =>
       if negb (match m with Ok st => forallb (fun r => id_clean (r_id r)) (s_rows st) | _ => true end) then V_OUT else
       if res_matches false m impl then
